@@ -2462,23 +2462,27 @@ class C12(Prop):
                 v = rng.choice([0, 1, 7, 100, 127] + ([-1, -128] if not w.startswith("u") else [255] if w != "uint8" else [200]))
                 if w == "int8":
                     v = max(-128, min(127, v))
+                if rng.random() < 0.15:
+                    # a value of a NAMED type whose kind is an integer kind (time.Duration, an enum): an integer all the same
+                    w, v = rng.choice([("nint", rng.choice([0, 7, -1, 3600])), ("nint8", rng.choice([0, -128, 127])), ("nuint16", rng.choice([0, 65535]))])
                 return "(%s %d)" % (w, v), [("", str(v))], True
             if c < 0.4:
                 v = rng.choice([0.5, 1.5, -2.25, 3.0, 100.125])
-                w = rng.choice(["f64", "f32"])
+                w = rng.choice(["f64", "f32", "f64", "nf64"])
                 txt = ("%.1f" % v) if v == int(v) else repr(v)
                 return "(%s %s)" % (w, f64bits(v)), [("", txt)], True
             if c < 0.6:
                 s = rng.choice(["", "plain", "<b>&", "héllo", "with \"quote\""])
-                return "(str %s)" % hx(s), [("", s)], True
+                return "(%s %s)" % (rng.choice(["str", "str", "str", "nstr"]), hx(s)), [("", s)], True
             if c < 0.7:
                 b = rng.choice([0, 1])
-                return "(bool %d)" % b, [("", str(b))], True
+                return "(%s %d)" % (rng.choice(["bool", "bool", "nbool"]), b), [("", str(b))], True
             if c < 0.8:
                 return rng.choice(["(nil)", "(nilptr int)", "(nilptr str)"]), [("", "")], True
             if c < 0.9:
                 # an unsupported kind stays unsupported when its value happens to be nil (an unset callback or channel field)
-                return rng.choice(["(chan)", "(func)", "(complex)", "(array2)", "(nilchan)", "(nilfunc)"]), [], False
+                # ... and a map is supported only with string keys
+                return rng.choice(["(chan)", "(func)", "(complex)", "(array2)", "(nilchan)", "(nilfunc)", "(imap)", "(bmap)"]), [], False
             return "(ptr (int 5))", [("", "5")], True
         if k < 0.5:
             inner, paths, ok = self.gen(rng, d - 1)
